@@ -1,4 +1,530 @@
 import XvcIgnore.GitIgnore
 import XvcIgnore.Lemmas
+/-!
+  Lemmas for the C16 property theorems: editing the tree, reading it back, git's verdicts.
+-/
 namespace Ign.Git
+open Ign
+
+/-! ## `editAt` / `contentAt` -/
+
+mutual
+theorem contentAt_editAt_same (f : Str → Str) :
+    ∀ (t : Tree) (d : List Str), contentAt d (editAt f d t) = (contentAt d t).map f
+  | .node c files dirs, [] => by simp [editAt, contentAt]
+  | .node c files dirs, c1 :: rest => by
+    simp only [editAt, contentAt]
+    exact contentAtDirs_editAtDirs_same f dirs c1 rest
+theorem contentAtDirs_editAtDirs_same (f : Str → Str) :
+    ∀ (ds : List (Str × Tree)) (c1 : Str) (rest : List Str),
+      contentAtDirs c1 rest (editAtDirs f c1 rest ds) = (contentAtDirs c1 rest ds).map f
+  | [], _, _ => by simp [contentAtDirs, editAtDirs]
+  | (n, t) :: ds, c1, rest => by
+    simp only [editAtDirs]
+    by_cases hn : n = c1
+    · simp only [hn, if_true, contentAtDirs]
+      exact contentAt_editAt_same f t rest
+    · simp only [hn, if_false, contentAtDirs]
+      exact contentAtDirs_editAtDirs_same f ds c1 rest
+end
+
+mutual
+theorem contentAt_editAt_other (f : Str → Str) :
+    ∀ (t : Tree) (p d : List Str), p ≠ d → contentAt d (editAt f p t) = contentAt d t
+  | .node c files dirs, [], [], h => absurd rfl h
+  | .node c files dirs, [], d1 :: drest, _ => by simp [editAt, contentAt]
+  | .node c files dirs, c1 :: rest, [], _ => by simp [editAt, contentAt]
+  | .node c files dirs, c1 :: rest, d1 :: drest, h => by
+    simp only [editAt, contentAt]
+    exact contentAtDirs_editAtDirs_other f dirs c1 rest d1 drest h
+theorem contentAtDirs_editAtDirs_other (f : Str → Str) :
+    ∀ (ds : List (Str × Tree)) (c1 : Str) (rest : List Str) (d1 : Str) (drest : List Str), c1 :: rest ≠ d1 :: drest →
+      contentAtDirs d1 drest (editAtDirs f c1 rest ds) = contentAtDirs d1 drest ds
+  | [], _, _, _, _, _ => by simp [editAtDirs]
+  | (n, t) :: ds, c1, rest, d1, drest, h => by
+    simp only [editAtDirs]
+    by_cases hn : n = c1
+    · simp only [hn, if_true]
+      simp only [contentAtDirs]
+      by_cases hd : c1 = d1
+      · subst hn; subst hd
+        simp only [if_true]
+        exact contentAt_editAt_other f t rest drest (fun e => h (by rw [e]))
+      · subst hn; simp only [hd, if_false]
+    · simp only [hn, if_false]
+      simp only [contentAtDirs]
+      by_cases hd : n = d1
+      · simp only [hd, if_true]
+      · simp only [hd, if_false]
+        exact contentAtDirs_editAtDirs_other f ds c1 rest d1 drest h
+end
+
+theorem contentAt_editAt (f : Str → Str) (t : Tree) (p d : List Str) :
+    contentAt d (editAt f p t) = if p = d then (contentAt d t).map f else contentAt d t := by
+  by_cases h : p = d
+  · subst h; simp only [if_true]; exact contentAt_editAt_same f t p
+  · simp only [h, if_false]; exact contentAt_editAt_other f t p d h
+
+/-! ## append-only -/
+
+/-- every `.gitignore` of `t` is still there in `t'` and has its old bytes as a prefix; no directory
+    appears or disappears -/
+def Ext (t t' : Tree) : Prop :=
+  ∀ d, match contentAt d t with
+    | some old => ∃ suf, contentAt d t' = some (old ++ suf)
+    | none => contentAt d t' = none
+
+theorem Ext.refl (t : Tree) : Ext t t := by
+  intro d; cases h : contentAt d t with
+  | some old => exact ⟨[], by simp⟩
+  | none => rfl
+
+theorem Ext.trans {a b c : Tree} (h1 : Ext a b) (h2 : Ext b c) : Ext a c := by
+  intro d
+  have e1 := h1 d; have e2 := h2 d
+  cases ha : contentAt d a with
+  | some old =>
+    rw [ha] at e1; obtain ⟨s1, hs1⟩ := e1
+    rw [hs1] at e2; obtain ⟨s2, hs2⟩ := e2
+    exact ⟨s1 ++ s2, by rw [hs2, List.append_assoc]⟩
+  | none =>
+    rw [ha] at e1; rw [e1] at e2; exact e2
+
+/-- an edit function that only appends -/
+def Appends (f : Str → Str) : Prop := ∀ c, ∃ s, f c = c ++ s
+
+theorem ext_editAt (f : Str → Str) (hf : Appends f) (p : List Str) (t : Tree) : Ext t (editAt f p t) := by
+  intro d
+  rw [contentAt_editAt]
+  cases h : contentAt d t with
+  | some old =>
+    by_cases hp : p = d
+    · obtain ⟨s, hs⟩ := hf old
+      exact ⟨s, by simp [hp, hs]⟩
+    · exact ⟨[], by simp [hp]⟩
+  | none => by_cases hp : p = d <;> simp [hp]
+
+theorem ext_foldl {α} (g : α → Str → Str) (dir : α → List Str) (hg : ∀ a, Appends (g a)) :
+    ∀ (l : List α) (t : Tree), Ext t (l.foldl (fun t a => editAt (g a) (dir a) t) t)
+  | [], t => Ext.refl t
+  | a :: l, t => by
+    simp only [List.foldl_cons]
+    exact Ext.trans (ext_editAt (g a) (hg a) (dir a) t) (ext_foldl g dir hg l _)
+
+theorem ext_writeGroups (date : Str) (keep : List Target) (line : Target → Str) (t : Tree) :
+    Ext t (writeGroups date keep line t) := by
+  unfold writeGroups
+  exact ext_foldl (fun d old => old ++ appendText old ((keep.filter (·.dir = d)).map line) date) id
+    (fun d c => ⟨_, rfl⟩) _ t
+
+/-! ## reading the tree back -/
+
+theorem mem_dedup {α} [DecidableEq α] (x : α) : ∀ l : List α, x ∈ dedup l ↔ x ∈ l
+  | [] => by simp [dedup]
+  | y :: ys => by
+    unfold dedup
+    by_cases h : y ∈ ys
+    · simp only [h, if_true, mem_dedup x ys, List.mem_cons]
+      constructor
+      · exact Or.inr
+      · rintro (rfl | h') <;> assumption
+    · simp only [h, if_false, List.mem_cons, mem_dedup x ys]
+
+theorem nodup_dedup {α} [DecidableEq α] : ∀ l : List α, (dedup l).Nodup
+  | [] => by simp [dedup]
+  | y :: ys => by
+    unfold dedup
+    by_cases h : y ∈ ys
+    · simp only [h, if_true]; exact nodup_dedup ys
+    · simp only [h, if_false, List.nodup_cons]
+      exact ⟨fun hm => h ((mem_dedup y ys).1 hm), nodup_dedup ys⟩
+
+theorem contentAt_foldl (g : List Str → Str → Str) (D : List Str) :
+    ∀ (l : List (List Str)) (t : Tree), l.Nodup →
+      contentAt D (l.foldl (fun t d => editAt (g d) d t) t) =
+        if D ∈ l then (contentAt D t).map (g D) else contentAt D t
+  | [], t, _ => by simp
+  | a :: l, t, hn => by
+    simp only [List.foldl_cons]
+    rw [contentAt_foldl g D l _ (List.nodup_cons.1 hn).2, contentAt_editAt]
+    by_cases ha : a = D
+    · subst ha
+      have : a ∉ l := (List.nodup_cons.1 hn).1
+      simp [this]
+    · have : ¬ D = a := fun e => ha e.symm
+      simp only [ha, if_false, List.mem_cons, this, false_or]
+
+mutual
+theorem contentsAlong_length : ∀ (t : Tree) (comps : List Str), (contentsAlong t comps).length = comps.length
+  | _, [] => by simp [contentsAlong]
+  | .node c _ _, [_] => by simp [contentsAlong]
+  | .node c _ dirs, c1 :: c2 :: rest => by
+    simp only [contentsAlong, List.length_cons]
+    rw [contentsAlongDirs_length dirs c1 (c2 :: rest)]
+    simp
+theorem contentsAlongDirs_length : ∀ (ds : List (Str × Tree)) (c1 : Str) (rest : List Str),
+    (contentsAlongDirs ds c1 rest).length = rest.length
+  | [], _, _ => by simp [contentsAlongDirs]
+  | (n, t) :: ds, c1, rest => by
+    simp only [contentsAlongDirs]
+    split
+    · exact contentsAlong_length t rest
+    · exact contentsAlongDirs_length ds c1 rest
+end
+
+mutual
+/-- the deepest `.gitignore` on the way to `D/name` is the one of `D` -/
+theorem contentsAlong_last : ∀ (t : Tree) (D : List Str) (name : Str) (c : Str), contentAt D t = some c →
+    ∃ init, contentsAlong t (D ++ [name]) = init ++ [c] ∧ init.length = D.length
+  | .node c0 _ _, [], name, c, h => by
+    simp only [contentAt, Option.some.injEq] at h; subst h
+    exact ⟨[], by simp [contentsAlong]⟩
+  | .node c0 _ dirs, c1 :: rest, name, c, h => by
+    simp only [contentAt] at h
+    obtain ⟨init, hi, hl⟩ := contentsAlongDirs_last dirs c1 rest name c h
+    refine ⟨c0 :: init, ?_, by simp [hl]⟩
+    cases rest with
+    | nil => simp only [List.nil_append] at hi; simp only [List.cons_append, List.nil_append, contentsAlong, hi]
+    | cons r1 r => simp only [List.cons_append] at hi; simp only [List.cons_append, contentsAlong, hi]
+theorem contentsAlongDirs_last : ∀ (ds : List (Str × Tree)) (c1 : Str) (rest : List Str) (name : Str) (c : Str),
+    contentAtDirs c1 rest ds = some c →
+    ∃ init, contentsAlongDirs ds c1 (rest ++ [name]) = init ++ [c] ∧ init.length = rest.length
+  | [], _, _, _, _, h => by simp [contentAtDirs] at h
+  | (n, t) :: ds, c1, rest, name, c, h => by
+    simp only [contentAtDirs] at h
+    simp only [contentsAlongDirs]
+    by_cases hn : n = c1
+    · simp only [hn, if_true] at h ⊢
+      exact contentsAlong_last t rest name c h
+    · simp only [hn, if_false] at h ⊢
+      exact contentsAlongDirs_last ds c1 rest name c h
+end
+
+/-! ## git's verdict -/
+
+theorem lastMatch_append (A B : List GPat) (rel : List Str) (d : Bool) :
+    lastMatch (A ++ B) rel d = match lastMatch B rel d with | some v => some v | none => lastMatch A rel d := by
+  induction A with
+  | nil => simp only [List.nil_append, lastMatch]; cases lastMatch B rel d <;> rfl
+  | cons g A ih =>
+    simp only [List.cons_append, lastMatch, ih]
+    cases lastMatch B rel d <;> rfl
+
+theorem lastMatch_nonneg (B : List GPat) (rel : List Str) (d : Bool) (hn : ∀ g ∈ B, g.neg = false)
+    (g0 : GPat) (h0 : g0 ∈ B) (hm : g0.matches rel d = true) : lastMatch B rel d = some false := by
+  induction B with
+  | nil => simp at h0
+  | cons g B ih =>
+    simp only [lastMatch]
+    rcases List.mem_cons.1 h0 with rfl | h
+    · cases hl : lastMatch B rel d with
+      | some v =>
+        -- a later line matched: it is not a negation either
+        have : ∀ (B : List GPat), (∀ g ∈ B, g.neg = false) → ∀ v, lastMatch B rel d = some v → v = false := by
+          intro B
+          induction B with
+          | nil => intro _ v h; simp [lastMatch] at h
+          | cons g B ih =>
+            intro hn v h
+            simp only [lastMatch] at h
+            cases hl : lastMatch B rel d with
+            | some w => rw [hl] at h; simp only [Option.some.injEq] at h; subst h; exact ih (fun g hg => hn g (by simp [hg])) w hl
+            | none =>
+              rw [hl] at h
+              by_cases hg : g.matches rel d = true
+              · simp only [hg, if_true, Option.some.injEq] at h; rw [← h]; exact hn g (by simp)
+              · simp [hg] at h
+        rw [this B (fun g hg => hn g (by simp [hg])) v hl]
+      | none => simp [hm, hn g0 (by simp)]
+    · rw [ih (fun g hg => hn g (by simp [hg])) h]
+
+theorem verdict_last (last : Str) (name : Str) (d : Bool) (h : lastMatch (parseContent last) [name] d = some false) :
+    ∀ (init : List Str) (pre : List Str), init.length = pre.length →
+      verdict (init ++ [last]) (pre ++ [name]) d = some false
+  | [], [], _ => by simp [verdict, h]
+  | [], _ :: _, hl => by simp at hl
+  | _ :: _, [], hl => by simp at hl
+  | c :: init, p :: pre, hl => by
+    simp only [List.cons_append, verdict, List.drop_succ_cons, List.drop_zero]
+    rw [verdict_last last name d h init pre (by simpa using hl)]
+
+theorem ignoredBy_of_verdict (stack : List Str) (comps : List Str) (d : Bool) (hne : comps ≠ [])
+    (hl : stack.length = comps.length) (h : verdict stack comps d = some false) : ignoredBy stack comps d = true := by
+  unfold ignoredBy
+  rw [List.any_eq_true]
+  refine ⟨comps.length - 1, ?_, ?_⟩
+  · simp only [List.mem_range]
+    cases comps with
+    | nil => exact absurd rfl hne
+    | cons c cs => simp
+  · have hpos : 0 < comps.length := by cases comps with | nil => exact absurd rfl hne | cons c cs => simp
+    have e : comps.length - 1 + 1 = comps.length := by omega
+    rw [e, List.take_of_length_le (by omega), List.take_of_length_le (by omega)]
+    simp [h]
+
+/-! ## lines -/
+
+theorem rustLinesAux_split (b : Str) : ∀ (a acc : Str),
+    rustLinesAux acc (a ++ '\n' :: b) = rustLinesAux acc (a ++ ['\n']) ++ rustLinesAux [] b
+  | [], acc => by simp [rustLinesAux]
+  | c :: a, acc => by
+    simp only [List.cons_append, rustLinesAux]
+    by_cases hc : c = '\n'
+    · simp only [hc, if_true, List.cons_append]; rw [rustLinesAux_split b a []]
+    · simp only [hc, if_false]; exact rustLinesAux_split b a (c :: acc)
+
+theorem rustLinesAux_line : ∀ (l acc : Str), '\n' ∉ l → rustLinesAux acc (l ++ ['\n']) = [lineOfAcc (l.reverse ++ acc)]
+  | [], acc, _ => by simp [rustLinesAux]
+  | c :: l, acc, h => by
+    have hc : c ≠ '\n' := fun e => h (by simp [e])
+    simp only [List.cons_append, rustLinesAux, hc, if_false]
+    rw [rustLinesAux_line l (c :: acc) (fun hm => h (by simp [hm]))]
+    simp
+
+theorem rustLines_joinWith : ∀ (lines : List Str), lines ≠ [] → (∀ l ∈ lines, '\n' ∉ l) →
+    rustLines (appendText.joinWith lines ++ ['\n']) = lines.map (fun l => lineOfAcc l.reverse)
+  | [], h, _ => absurd rfl h
+  | [l], _, hl => by
+    simp only [appendText.joinWith, rustLines, List.map_cons, List.map_nil]
+    rw [rustLinesAux_line l [] (hl l (by simp))]; simp
+  | l :: l2 :: r, _, hl => by
+    have e : appendText.joinWith (l :: l2 :: r) ++ ['\n'] = l ++ '\n' :: (appendText.joinWith (l2 :: r) ++ ['\n']) := by
+      simp [appendText.joinWith]
+    rw [e]
+    unfold rustLines
+    rw [rustLinesAux_split, rustLinesAux_line l [] (hl l (by simp))]
+    have ih := rustLines_joinWith (l2 :: r) (by simp) (fun x hx => hl x (by simp [hx]))
+    unfold rustLines at ih
+    rw [ih]; simp
+
+/-! ## parsing the lines xvc writes -/
+
+
+theorem tts_cons_plain (c : Char) (r : Str) (hc : c ≠ '\\') :
+    trimTrailingSpaces (c :: r) = if c = ' ' ∧ trimTrailingSpaces r = [] then [] else c :: trimTrailingSpaces r := by
+  conv => lhs; unfold trimTrailingSpaces
+  split <;> simp_all
+
+theorem tts_id : ∀ s : Str, '\\' ∉ s → s.getLast? ≠ some ' ' → trimTrailingSpaces s = s
+  | [], _, _ => by simp [trimTrailingSpaces]
+  | c :: r, hb, hl => by
+    have h1 : c ≠ '\\' := fun e => hb (by simp [e])
+    rw [tts_cons_plain c r h1]
+    cases r with
+    | nil =>
+      have h2 : c ≠ ' ' := fun e => hl (by simp [e])
+      simp [trimTrailingSpaces, h2]
+    | cons c2 r =>
+      have ih := tts_id (c2 :: r) (fun h => hb (by simp [h])) (by simpa [List.getLast?_cons_cons] using hl)
+      rw [ih]; simp
+
+theorem mkPat2_neg (neg d : Bool) (l : Str) (g : GPat) (h : mkPat2 neg d l = some g) : g.neg = neg := by
+  unfold mkPat2 at h
+  split at h
+  · cases h
+  · simp only [Option.some.injEq] at h; rw [← h]
+
+theorem mkPat_neg (neg : Bool) (l : Str) (g : GPat) (h : mkPat neg l = some g) : g.neg = neg := by
+  unfold mkPat at h
+  split at h <;> exact mkPat2_neg _ _ _ _ h
+
+theorem parseLine_slash_nonneg (s : Str) (g : GPat) (h : parseLine ('/' :: s) = some g) : g.neg = false := by
+  have hr : trimTrailingSpaces ('/' :: s) = '/' :: trimTrailingSpaces s := by
+    rw [tts_cons_plain _ _ (by decide)]; simp
+  unfold parseLine at h
+  simp only [hr, List.cons_ne_nil, List.head?_cons, Option.some.injEq, false_or,
+    show ¬ ('/' = '#') by decide, show ¬ ('/' = '!') by decide, if_false] at h
+  exact mkPat_neg _ _ _ h
+
+/-- a name that, written as `/name`, is a literal pattern for git: no glob metacharacter, no
+    separator, no line break, no trailing blank -/
+def PlainName (n : Str) : Prop :=
+  n ≠ [] ∧ (∀ c ∈ n, plainChar c = true ∧ c ≠ '/' ∧ c ≠ '\n' ∧ c ≠ '\r') ∧ n.getLast? ≠ some ' '
+
+instance (n : Str) : Decidable (PlainName n) := by unfold PlainName; infer_instance
+
+theorem parseLine_plain (n : Str) (hn : PlainName n) : parseLine ('/' :: n) = some ⟨false, false, true, n⟩ := by
+  obtain ⟨hne, hall, hlast⟩ := hn
+  have hb : '\\' ∉ ('/' :: n) := by
+    intro h; rcases List.mem_cons.1 h with h | h
+    · exact absurd h (by decide)
+    · have := (hall _ h).1; simp [plainChar] at this
+  have hl : ('/' :: n).getLast? = n.getLast? := by
+    cases n with | nil => exact absurd rfl hne | cons c r => simp [List.getLast?_cons_cons]
+  have hr : trimTrailingSpaces ('/' :: n) = '/' :: n := tts_id _ hb (by rw [hl]; exact hlast)
+  have hns : n.getLast? ≠ some '/' := by
+    intro h
+    have : '/' ∈ n := List.mem_of_getLast? h
+    exact (hall _ this).2.1 rfl
+  unfold parseLine
+  simp only [hr, List.cons_ne_nil, List.head?_cons, Option.some.injEq, false_or,
+    show ¬ ('/' = '#') by decide, show ¬ ('/' = '!') by decide, if_false]
+  unfold mkPat mkPat2
+  simp [hl, hns]
+
+/-! ## a literal pattern matches itself -/
+
+theorem matchToks_lits_self : ∀ n : Str, matchToks (n.map .lit) n = true
+  | [] => by simp [matchToks]
+  | c :: n => by simp [matchToks, matchToks_lits_self n]
+
+theorem globMatch_plain_self (n : Str) (hn : ∀ c ∈ n, plainChar c = true) : globMatch n n = true := by
+  unfold globMatch globToks
+  have h1 := unescape_plain_append n [] hn
+  simp only [List.append_nil, unescape] at h1
+  rw [h1]
+  obtain ⟨s', hs⟩ := tokenize_plain_append true n [] hn
+  simp only [List.append_nil] at hs
+  rw [hs]
+  have : tokenize s' CMode.normal [] = [] := by cases s' <;> simp [tokenize]
+  rw [this, List.append_nil]
+  exact matchToks_lits_self n
+
+theorem lineOfAcc_slash (s : Str) : ∃ r, lineOfAcc (('/' :: s).reverse) = '/' :: r := by
+  simp only [List.reverse_cons]
+  unfold lineOfAcc
+  split
+  · rename_i a heq
+    -- s.reverse ++ ['/'] = '\r' :: a
+    cases hs : s.reverse with
+    | nil => rw [hs] at heq; simp at heq
+    | cons c r =>
+      rw [hs] at heq
+      simp only [List.cons_append, List.cons.injEq] at heq
+      refine ⟨r.reverse, ?_⟩
+      rw [← heq.2]; simp
+  · exact ⟨s, by simp⟩
+
+theorem lineOfAcc_plain (n : Str) (hn : PlainName n) : lineOfAcc (('/' :: n).reverse) = '/' :: n := by
+  obtain ⟨hne, hall, _⟩ := hn
+  simp only [List.reverse_cons]
+  unfold lineOfAcc
+  split
+  · rename_i a heq
+    cases hs : n.reverse with
+    | nil => simp at hs; exact absurd hs hne
+    | cons c r =>
+      rw [hs] at heq
+      simp only [List.cons_append, List.cons.injEq] at heq
+      have : c ∈ n := by rw [← List.mem_reverse, hs]; simp
+      exact absurd heq.1 (hall c this).2.2.2
+  · simp
+
+/-! ## after an update the written target is ignored by git -/
+
+/-- the content of a `.gitignore` after xvc appended the lines `lines`: whatever was there, the last
+    matching pattern for `name` is one of the appended, non-negated ones -/
+theorem lastMatch_appended (old date : Str) (names : List Str) (name : Str) (hmem : name ∈ names)
+    (hname : PlainName name) (hsane : ∀ y ∈ names, '\n' ∉ y) (d : Bool) :
+    lastMatch (parseContent (old ++ appendText old (names.map (fun y => '/' :: y)) date)) [name] d = some false := by
+  have hne : names.map (fun y => '/' :: y) ≠ [] := by
+    intro h; rw [List.map_eq_nil_iff] at h; rw [h] at hmem; simp at hmem
+  have hl : ∀ l ∈ names.map (fun y => '/' :: y), '\n' ∉ l := by
+    intro l hl
+    obtain ⟨y, hy, rfl⟩ := List.mem_map.1 hl
+    intro h; rcases List.mem_cons.1 h with h | h
+    · exact absurd h (by decide)
+    · exact hsane y hy h
+  -- shape: X ++ '\n' :: (joinWith lines ++ ['\n'])
+  obtain ⟨X, hX⟩ : ∃ X, old ++ appendText old (names.map (fun y => '/' :: y)) date =
+      X ++ '\n' :: (appendText.joinWith (names.map (fun y => '/' :: y)) ++ ['\n']) :=
+    ⟨old ++ ((if old ≠ [] ∧ old.getLast? ≠ some '\n' then ['\n'] else []) ++ "### Following ".toList ++
+        natStr (names.map (fun y => '/' :: y)).length ++ " lines are added by xvc on ".toList ++ date), by
+      simp [appendText, List.append_assoc]⟩
+  rw [hX]
+  unfold parseContent rustLines
+  rw [rustLinesAux_split, List.filterMap_append, lastMatch_append]
+  have hj := rustLines_joinWith _ hne hl
+  unfold rustLines at hj
+  rw [hj]
+  have key : lastMatch (List.filterMap parseLine
+      ((names.map (fun y => '/' :: y)).map (fun l => lineOfAcc l.reverse))) [name] d = some false := by
+    apply lastMatch_nonneg _ _ _ ?_ ⟨false, false, true, name⟩
+    · rw [List.mem_filterMap]
+      refine ⟨'/' :: name, ?_, parseLine_plain name hname⟩
+      rw [List.mem_map]
+      exact ⟨'/' :: name, List.mem_map.2 ⟨name, hmem, rfl⟩, lineOfAcc_plain name hname⟩
+    · simp only [GPat.matches, Bool.not_false, Bool.true_or, Bool.true_and, if_true]
+      exact globMatch_plain_self name (fun c hc => (hname.2.1 c hc).1)
+    · intro g hg
+      rw [List.mem_filterMap] at hg
+      obtain ⟨l, hl', hp⟩ := hg
+      obtain ⟨l0, hl0, rfl⟩ := List.mem_map.1 hl'
+      obtain ⟨y, _, rfl⟩ := List.mem_map.1 hl0
+      obtain ⟨r, hr⟩ := lineOfAcc_slash y
+      rw [hr] at hp
+      exact parseLine_slash_nonneg r g hp
+  rw [key]
+
+theorem ignored_after_writeGroups (date : Str) (keep : List Target) (t : Tree) (x : Target) (hx : x ∈ keep)
+    (hname : PlainName x.name) (hsane : ∀ y ∈ keep, '\n' ∉ y.name) (hD : (contentAt x.dir t).isSome = true) :
+    gitIgnored (writeGroups date keep (fun f => '/' :: f.name) t) (x.dir ++ [x.name]) false = true := by
+  obtain ⟨old, hold⟩ := Option.isSome_iff_exists.1 hD
+  have hc : contentAt x.dir (writeGroups date keep (fun f => '/' :: f.name) t) =
+      some (old ++ appendText old (((keep.filter (·.dir = x.dir)).map (·.name)).map (fun y => '/' :: y)) date) := by
+    unfold writeGroups
+    rw [contentAt_foldl (fun d old => old ++ appendText old ((keep.filter (·.dir = d)).map (fun f => '/' :: f.name)) date)
+      x.dir _ t (nodup_dedup _)]
+    have : x.dir ∈ dedup (keep.map (·.dir)) := (mem_dedup _ _).2 (List.mem_map.2 ⟨x, hx, rfl⟩)
+    simp only [this, if_true, hold, Option.map_some, List.map_map]
+    rfl
+  obtain ⟨init, hi, hlen⟩ := contentsAlong_last _ x.dir x.name _ hc
+  unfold gitIgnored
+  apply ignoredBy_of_verdict _ _ _ (by simp)
+  · rw [contentsAlong_length]
+  · rw [hi]
+    apply verdict_last _ _ _ _ init x.dir hlen
+    apply lastMatch_appended old date _ x.name _ hname
+    · intro y hy
+      obtain ⟨z, hz, rfl⟩ := List.mem_map.1 hy
+      exact hsane z (List.mem_filter.1 hz).1
+    · exact List.mem_map.2 ⟨x, List.mem_filter.2 ⟨hx, by simp⟩, rfl⟩
+
+/-! ## the cache -/
+
+/-- lines of a text whose first part ends with a newline -/
+theorem rustLines_append_nl (a b : Str) : rustLines (a ++ '\n' :: b) = rustLines (a ++ ['\n']) ++ rustLines b := by
+  unfold rustLines; exact rustLinesAux_split b a []
+
+theorem parseContent_append_nl (a b : Str) :
+    parseContent (a ++ '\n' :: b) = parseContent (a ++ ['\n']) ++ parseContent b := by
+  unfold parseContent; rw [rustLines_append_nl, List.filterMap_append]
+
+/-- a literal glob matches only itself -/
+theorem globMatch_plain_eq (n p : Str) (hn : ∀ c ∈ n, plainChar c = true) (h : globMatch n p = true) : p = n := by
+  unfold globMatch globToks at h
+  have h1 := unescape_plain_append n [] hn
+  simp only [List.append_nil, unescape] at h1
+  rw [h1] at h
+  obtain ⟨s', hs⟩ := tokenize_plain_append true n [] hn
+  simp only [List.append_nil] at hs
+  rw [hs] at h
+  have : tokenize s' CMode.normal [] = [] := by cases s' <;> simp [tokenize]
+  rw [this] at h
+  obtain ⟨q, hq, hm⟩ := matchToks_lits n [] p h
+  cases q with
+  | nil => simpa using hq
+  | cons c q => simp [matchToks] at hm
+
+theorem starLoop_noslash (k : Str → Bool) (hk : k [] = true) : ∀ c : Str, '/' ∉ c → starLoop k c = true
+  | [], _ => by simp [starLoop, hk]
+  | x :: xs, h => by
+    have hx : x ≠ '/' := fun e => h (by simp [e])
+    have ih := starLoop_noslash k hk xs (fun hm => h (by simp [hm]))
+    simp only [starLoop, ih, Bool.and_true, Bool.or_eq_true, bne_iff_ne, ne_eq]
+    exact Or.inr hx
+
+/-- `.xvc/*` matches every entry directly inside `.xvc` -/
+theorem xvcStar_matches (c : Str) (hc : '/' ∉ c) : globMatch ".xvc/*".toList (".xvc/".toList ++ c) = true := by
+  have ht : globToks ".xvc/*".toList = ".xvc/".toList.map .lit ++ [.star] := by decide
+  unfold globMatch
+  rw [ht]
+  have : ∀ (d : Str) (p : Str), matchToks (d.map .lit ++ [.star]) (d ++ p) = starLoop (matchToks []) p := by
+    intro d
+    induction d with
+    | nil => intro p; simp [matchToks]
+    | cons x d ih => intro p; simp [matchToks, ih]
+  rw [this]
+  exact starLoop_noslash _ (by simp [matchToks]) c hc
+
 end Ign.Git
